@@ -1155,10 +1155,20 @@ def d5_both_sides(chk: Check) -> None:
                 continue
             t = src(n.test).replace(" ", "")
             for mine, other in ((lhs, rhs), (rhs, lhs)):
-                if t in ("len({})>0".format(mine), mine,
-                         "len({})>=1".format(mine), "0<len({})".format(mine)):
+                pos = t in ("len({})>0".format(mine), mine,
+                            "len({})>=1".format(mine),
+                            "0<len({})".format(mine))
+                # the same question asked the other way round: the body
+                # is the empty branch
+                neg = t in ("len({})==0".format(mine), "not" + mine,
+                            "len({})<1".format(mine),
+                            "notlen({})".format(mine),
+                            "0==len({})".format(mine),
+                            "len({})<=0".format(mine))
+                if pos or neg:
                     n_sites += 1
-                    names = {x.id for s in n.orelse for x in ast.walk(s)
+                    empty_branch = n.orelse if pos else n.body
+                    names = {x.id for s in empty_branch for x in ast.walk(s)
                              if isinstance(x, ast.Name)}
                     if other in names:
                         chk.ok("C06-D5", fi, n, "if " + src(n.test),
